@@ -187,4 +187,19 @@ theorem sorted_profile_unique {a b : List Nat} {k k' : Nat} (h : SamePartition a
     have hb0 : b.count c = 0 := List.count_eq_zero_of_not_mem (fun hm => hc (hb.1.1 c hm))
     rw [ha0, hb0]
 
+/-- the array-indexed evaluation used by the driver decides `SamePartition` -/
+theorem samePartitionB_iff {α β : Type} [DecidableEq α] [DecidableEq β] (a : List α) (b : List β) :
+    samePartitionB a b = true ↔ SamePartition a b := by
+  unfold samePartitionB SamePartition
+  simp only [Bool.and_eq_true, beq_iff_eq, List.all_eq_true, List.mem_range, List.getElem?_toArray]
+  constructor
+  · rintro ⟨hl, h⟩
+    refine ⟨hl, fun i hi j hj => ?_⟩
+    have := h i hi j hj
+    by_cases h1 : a[i]? = a[j]? <;> by_cases h2 : b[i]? = b[j]? <;> simp_all
+  · rintro ⟨hl, h⟩
+    refine ⟨hl, fun i hi j hj => ?_⟩
+    have := h i hi j hj
+    by_cases h1 : a[i]? = a[j]? <;> by_cases h2 : b[i]? = b[j]? <;> simp_all
+
 end SkNet.Clustering
